@@ -106,6 +106,16 @@ pub fn check_lax_pair(f: &L, g: &L, loc: &mut Local) {
             }
         }
     }
+    // the in-place form is the same juxtaposition
+    {
+        let mut a = build_lax(f);
+        let r = catch(|| a.tensor_assign(build_lax(g)));
+        loc.trans(1);
+        match r.map(|_| decode_lax(&a)) {
+            Ok(Ok(d)) if d == expected => {}
+            other => loc.violation("lax-tensor_assign-not-the-juxtaposition", json!({"f": f, "g": g, "expected": expected, "got": format!("{:?}", other)})),
+        }
+    }
     if !f.open.nodes.is_empty() && (!g.quot.is_empty() || !g.open.edges.is_empty()) {
         loc.nontrivial();
     }
